@@ -674,7 +674,16 @@ fn gen_6lowpan_special(a: &mut Adv) -> Vec<u8> {
     if a.tape.draw(16) == 0 {
         f.version = a.tape.draw(4) as u8;
     }
-    enc_154(&f)
+    let mut b = enc_154(&f);
+    // the reserved addressing mode 0b01 for the destination (FCF bits 10-11) or the source (bits 14-15)
+    if a.tape.draw(12) == 11 && b.len() > 2 {
+        if a.tape.draw(2) == 0 {
+            b[1] = (b[1] & !0x0c) | 0x04;
+        } else {
+            b[1] = (b[1] & !0xc0) | 0x40;
+        }
+    }
+    b
 }
 
 fn mutate(a: &mut Adv, f: &mut Vec<u8>) {
